@@ -1,6 +1,6 @@
 /-
 C05 - `prepareCFiltersQuery` as the CODE defines it (translated from query.go on every run,
-Gen/Trans.lean) against the model's range arithmetic `rangeOf` / `prepare`, which `C05_range`,
+Gen/TransQuery.lean) against the model's range arithmetic `rangeOf` / `prepare`, which `C05_range`,
 `C05_no_query_above_tip` and `C05_index_aligned` are about.  The store lookups
 (`BlockHeaders.FetchHeader`, `BestBlock`, `GetBlockHash`, the two `FetchHeaderAncestors`) are
 function parameters of the translated definition, so the theorems also say what the stores are
@@ -9,7 +9,7 @@ asked for.
 import Neutrino.Props.C05
 import Neutrino.Lemmas.TransGetCFilter
 namespace Neutrino.GetCFilter
-open Neutrino.Gen.Trans Neutrino.GoInt
+open Neutrino.Gen.TransQuery Neutrino.GoInt
 
 section
 variable (blockHash : Atom) (ft bt : Nat) (mb : Int) (self : Atom) (f1 : T_wire_BlockHeader → Atom)
